@@ -35,8 +35,8 @@ ASSUMPTIONS = ["failed realizations are passed to filters as all-NaN rows (what 
                "a percentile within 1e-12 of k/n may give k or ceil(p*n) non-zero weights; negative weights are never accepted"]
 EXHAUSTIVE = {"quick": False, "thorough": False}
 BOUNDS = {"quick": {"exhaustive_n": 5, "sampled_n_max": 30}, "thorough": {"exhaustive_n": 7, "sampled_n_max": 60}}
-REQUIRED = {"quick": {"cvar.calls": 20000, "cvar.e2e": 200, "cvar.no_success": 10, "__nontrivial__": 100},
-            "thorough": {"cvar.calls": 1000000, "cvar.e2e": 2000, "cvar.no_success": 50, "__nontrivial__": 1000}}
+REQUIRED = {"quick": {"cvar.calls": 20000, "cvar.e2e": 200, "cvar.e2e_after_another_constraint_filter": 60, "cvar.e2e_later_evaluation_of_same_evaluator": 200, "cvar.no_success": 10, "__nontrivial__": 100},
+            "thorough": {"cvar.calls": 1000000, "cvar.e2e": 2000, "cvar.e2e_after_another_constraint_filter": 600, "cvar.e2e_later_evaluation_of_same_evaluator": 2000, "cvar.no_success": 50, "__nontrivial__": 1000}}
 
 FLAVOURS = [("objective", None), ("constraint", "upper"), ("constraint", "lower"), ("constraint", "eq"),
             ("constraint", "two"), ("objective2", None), ("objective_neg", None)]
@@ -86,7 +86,7 @@ def cases(tier: str, seed: int):
         yield {"mode": "e2e", "i": i}
 
 
-def _config(n, flavour, kind, percentile, rng, weights=None):
+def _config(n, flavour, kind, percentile, rng, weights=None, first_filter=None):
     from ropt.config.enopt import EnOptConfig  # noqa: PLC0415
 
     cfg = {"variables": {"initial_values": [0.0, 0.0]},
@@ -113,6 +113,10 @@ def _config(n, flavour, kind, percentile, rng, weights=None):
                                         "realization_filters": [-1, 0]}
         cfg["realization_filters"] = [{"method": "cvar-constraint", "options": {"sort": 1, "percentile": percentile}}]
         meta = {"lo": lo, "hi": hi}
+        if first_filter is not None:
+            # another constraint filter, on constraint 0, evaluated before the judged one: both see the same constraint array
+            cfg["realization_filters"].insert(0, first_filter)
+            cfg["nonlinear_constraints"]["realization_filters"] = [0, 1]
     return EnOptConfig.model_validate(cfg), meta
 
 
@@ -253,7 +257,13 @@ def _e2e(case, obs):
         failed[int(rng.integers(n))] = False
     grid = _grid(int((~failed).sum()), "quick")
     p = float(grid[int(rng.integers(len(grid)))])
-    cfg, meta = _config(n, fl, kind, p, rng)
+    first = None
+    if fl == "constraint" and rng.random() < 0.5:
+        p0 = float(rng.choice([0.25, 0.5, 0.75, 1.0]))
+        first = [{"method": "cvar-constraint", "options": {"sort": 0, "percentile": p0}},
+                 {"method": "sort-constraint", "options": {"sort": 0, "first": 0, "last": n - 1}}][int(rng.integers(2))]
+        obs.count("cvar.e2e_after_another_constraint_filter")
+    cfg, meta = _config(n, fl, kind, p, rng, first_filter=first)
     st = {}
 
     def draw():
@@ -295,6 +305,10 @@ def _e2e(case, obs):
         got = float(res.functions.objectives[{"objective": 0, "objective_neg": 1}[fl]] if isobj else res.functions.constraints[1])
         rows = res.realizations.objective_weights if isobj else res.realizations.constraint_weights
         row = rows[0] if fl == "objective" else rows[1]
+        if first is not None and first["method"].startswith("cvar"):
+            for k, d in models.check_cvar_weights(rows[0], other * 3, failed, first["options"]["percentile"]):
+                obs.violation("e2e_first_filter_" + k, percentile=first["options"]["percentile"], failed=failed, w=rows[0], **d)
+                return
         for k, d in models.check_cvar_weights(row, bad, failed, p):
             obs.violation("e2e_" + k, flavour=fl, kind=kind, percentile=p, failed=failed, ranked=ranked, w=row, **d)
             return
